@@ -129,6 +129,10 @@ func (w *World) CheckDirty() error {
 		}
 		b, err := atree.EncodeSlab(s, cborEncMode)
 		if err != nil {
+			if w.TolerateInlineLimit && isInlineLimitRefusal(err) {
+				w.stats.Extra["encode-refusals-over-256-inlined-entries"]++
+				continue
+			}
 			return viol("dirty", "loaded slab %s does not encode: %v", id, err)
 		}
 		n++
@@ -607,6 +611,11 @@ func (w *World) Commit(relaxed bool, workers int) error {
 	}
 	w.led.inCommit = false
 	if err != nil {
+		if w.TolerateInlineLimit && isInlineLimitRefusal(err) {
+			w.stats.Extra["commits-refused-over-256-inlined-entries"]++
+			w.Stuck = true
+			return errStop
+		}
 		return viol("commit-err", "commit failed without an injected fault: %v", err)
 	}
 	return nil
